@@ -70,6 +70,9 @@ func (r *Run) VerifyGenerated(c *Corpus, props ...string) {
 	}
 	sort.Strings(skipped)
 	r.extraCov["corpus_skipped"] = skipped
+	if pm["C13"] {
+		r.childrenPlacement(closures)
+	}
 	for _, gc := range closures {
 		kind := "BLOCK"
 		if gc.topLevel {
@@ -224,8 +227,8 @@ func sinkLanguage(k string) string {
 	case "ATTR_DQ":
 		return "DQ_ATTR_SAFE"
 	case "SCRIPT":
-		switch s.Js {
-		case "":
+		switch jsTop(s.Js) {
+		case "", "{":
 			return "JS_BARE_SAFE"
 		case "'":
 			return "JS_SQ_SINK"
@@ -666,5 +669,95 @@ func (r *Run) SweepGeneratorWrites() {
 	r.e.notes = appendUnique(r.e.notes, fmt.Sprintf("generator source sweep: %d constants from which generator.go builds a dynamic write continue with templ.EscapeString( or are one of the two C03 positions", total))
 	if total == 0 {
 		r.e.addObl(&Obligation{Name: "generator#dynwrite.none", Kind: "site", Func: "generator", Goal: False, Verdict: "sat", Solver: "engine", Note: "no dynamic write found in generator/generator.go: the sweep does not recognise how the generator emits writes any more"})
+	}
+}
+
+// childrenPlacement (C13, "children are rendered where the callee places its children slot"): a block closure is
+// verified on its own, so what a variable it captures holds is not known there. The variable a children expression
+// renders must therefore be the one the enclosing template body read from the context on entry - declared by
+// `v := templ.GetChildren(ctx)` directly in the template's own closure, not in the closure of a block (where the slot
+// has been cleared by whoever renders the block). One obligation per children expression.
+func (r *Run) childrenPlacement(closures []*genClosure) {
+	top := map[*ast.FuncDecl]*genClosure{}
+	for _, gc := range closures {
+		if gc.topLevel {
+			top[gc.decl] = gc
+		}
+	}
+	for _, gc := range closures {
+		info := gc.pkg.TypesInfo
+		k := 0
+		ast.Inspect(gc.lit.Body, func(x ast.Node) bool {
+			if fl, ok := x.(*ast.FuncLit); ok && fl != gc.lit {
+				return false
+			}
+			call, ok := x.(*ast.CallExpr)
+			if !ok {
+				return true
+			}
+			sel, ok := ast.Unparen(call.Fun).(*ast.SelectorExpr)
+			if !ok || sel.Sel.Name != "Render" {
+				return true
+			}
+			id, ok := ast.Unparen(sel.X).(*ast.Ident)
+			if !ok {
+				return true
+			}
+			obj := info.Uses[id]
+			if obj == nil {
+				return true
+			}
+			// where was it declared, and by what?
+			t := top[gc.decl]
+			if t == nil {
+				return true
+			}
+			var declIn *ast.FuncLit
+			fromChildren := false
+			var stack []*ast.FuncLit
+			var walk func(n ast.Node) bool
+			walk = func(n ast.Node) bool {
+				if fl, ok := n.(*ast.FuncLit); ok {
+					stack = append(stack, fl)
+					ast.Inspect(fl.Body, func(m ast.Node) bool {
+						if m == nil {
+							return true
+						}
+						if _, ok := m.(*ast.FuncLit); ok {
+							return walk(m)
+						}
+						if as, ok := m.(*ast.AssignStmt); ok && len(as.Lhs) == 1 && len(as.Rhs) == 1 {
+							if l, ok := as.Lhs[0].(*ast.Ident); ok && info.Defs[l] == obj {
+								declIn = stack[len(stack)-1]
+								if c, ok := ast.Unparen(as.Rhs[0]).(*ast.CallExpr); ok {
+									if f := calleeFunc(info, c); f != nil && f.FullName() == modulePath+".GetChildren" {
+										fromChildren = true
+									}
+								}
+							}
+						}
+						return true
+					})
+					stack = stack[:len(stack)-1]
+					return false
+				}
+				return true
+			}
+			walk(t.lit)
+			if !fromChildren {
+				return true
+			}
+			pos := gc.pkg.Fset.Position(call.Pos())
+			k++
+			name := fmt.Sprintf("%s#children.placement.%d", gc.name, k)
+			o := &Obligation{Name: name, Kind: "children", Func: gc.name, Goal: True, Verdict: "unsat", Solver: "engine", Pos: fmt.Sprintf("%s:%d", pos.Filename, pos.Line),
+				Note: "the children expression renders the children the enclosing template received (read from the context in the template's own closure)"}
+			if declIn != t.lit {
+				o.Goal, o.Verdict = False, "sat"
+				o.Note = "the children expression renders " + id.Name + ", which is read from the context inside a block closure (where the slot has been cleared), not the children the enclosing template received: they are not rendered where the template places its slot"
+			}
+			r.e.addObl(o)
+			return true
+		})
 	}
 }
